@@ -617,6 +617,10 @@ impl TypeCheckerState {
     /// Gets all of the values that are registered with the unifier state.
     #[must_use]
     pub fn values(&self) -> Vec<&TCBoxedVal> {
+        #[cfg(smlxl_storage_layout_extractor_verif)]
+        if crate::verif_hooks::active() {
+            return crate::verif_hooks::ordered_vec("tc.values", self.expressions.values());
+        }
         self.expressions.values().collect()
     }
 
@@ -624,6 +628,13 @@ impl TypeCheckerState {
     /// state.
     #[must_use]
     pub fn variables(&self) -> Vec<TypeVariable> {
+        #[cfg(smlxl_storage_layout_extractor_verif)]
+        if crate::verif_hooks::active() {
+            return crate::verif_hooks::ordered_vec(
+                "tc.variables",
+                self.inferences.keys().copied(),
+            );
+        }
         self.inferences.keys().copied().collect()
     }
 
